@@ -292,3 +292,40 @@ Example multi_toast_script_runs :
      ToastBase 3%nat 4%Z 3%nat (Some 2%Z); Cascade (Some 2%Z)] /\
   union_filter nat [Nat.eqb 3%nat; Nat.eqb 5%nat] 5%nat = true /\ union_filter nat [Nat.eqb 3%nat; Nat.eqb 5%nat] 4%nat = false.
 Proof. vm_compute. repeat split. Qed.
+
+(* Tie by TRANSLATION: Generated/ScriptSrc.v is produced by harness/py2coq.py from
+   FitsTiler._tile_toast in /repo's working tree on every build -- the calls it makes on its
+   Builder, with their arguments as symbolic values, and the closure it hands to the cascade.
+   The translated function makes exactly the calls of the hand-written script
+   (Model/TileToastScript.v: one toast_base per image with the sampler and the filter of THAT
+   image at the common start level, then one cascade with the closure over ALL the filters, the
+   caller's worker count and progress flag in each, then apply_wcs_info with the last image's
+   WCS), and the translated closure is the union filter of the theorems above.  Proofs in
+   Proofs/ScriptSrcP.v. *)
+From Coq Require Import String.
+From Toasty Require Import Model.SrcPrelude Model.TileToastScript Generated.ScriptSrc Proofs.ScriptSrcP.
+
+Theorem src_tile_toast_is_script :
+  forall (image : Type) (has_wcs : image -> bool) (guess : image -> Z)
+         (images : list image) (cp : bool) (par given : option Z),
+  src_tile_toast image has_wcs guess images cp par given
+  = tile_toast_script image has_wcs guess images cp par given.
+Proof. exact src_tile_toast_eq. Qed.
+Print Assumptions src_tile_toast_is_script.
+
+Theorem src_cascade_filter_is_union :
+  forall (tile : Type) (fs : list (tile -> bool)) (t : tile),
+  src_tile_toast_tile_filters fs t = union_filter tile fs t.
+Proof. exact src_tile_filters_is_union. Qed.
+Print Assumptions src_cascade_filter_is_union.
+
+(* the script's start level is MultiToast's, over the images' guessed levels *)
+Example src_tile_toast_runs :
+  option_map (@List.length _)
+    (src_tile_toast nat (fun i => negb (Nat.eqb i 2)) (fun i => Z.of_nat i + 2)%Z [0; 1; 2; 3]%nat true (Some 2%Z) None)
+  = Some 6%nat /\
+  option_map (fun l => nth 1 l (SCall EmptyString [] []))
+    (src_tile_toast nat (fun i => negb (Nat.eqb i 2)) (fun i => Z.of_nat i + 2)%Z [0; 1; 2; 3]%nat true (Some 2%Z) None)
+  = Some (toast_base_call nat 5%Z true (Some 2%Z) 1%nat) /\
+  src_tile_toast nat (fun _ => true) (fun _ => 3%Z) [] true None None = None.
+Proof. vm_compute. repeat split. Qed.
